@@ -683,32 +683,53 @@ class VM:
         return mk_bool(z3.And(cs)) if cs else True
 
     def runs_eq(self, aa, bb):
-        # structural comparison after normalisation; lengths decide otherwise
+        """Equality of byte strings containing opaque runs: the two atom lists are aligned piece by piece (forking on
+        the relative lengths).  Windows of distinct runs - and distinct windows of one run - are unequal (opaque contents
+        are distinct values; an equal pair is created by reusing the same window)."""
         la, lb = mk_bytes_len(aa), mk_bytes_len(bb)
         if not self.truth(mk_bool(zint(la) == zint(lb))):
             return False
         na, nb = self.norm_atoms(aa), self.norm_atoms(bb)
-        if len(na) == len(nb):
-            cs = []
-            ok = True
-            for x, y in zip(na, nb):
-                if isinstance(x, Run) and isinstance(y, Run):
-                    if x.rid == y.rid:
-                        cs.append(zint(x.off) == zint(y.off))
-                        cs.append(zint(x.length) == zint(y.length))
-                    elif self.entails(zint(x.length) > 0):
-                        return False        # distinct opaque runs have distinct contents (equal contents = the same run reused)
-                    else:
-                        ok = False
-                        break
-                elif isinstance(x, Run) or isinstance(y, Run):
-                    ok = False
-                    break
-                else:
-                    cs.append(atom_z(x) == atom_z(y))
-            if ok:
-                return mk_bool(z3.And(cs)) if cs else True
-        raise Unsupported('run equality with different structure')
+        i = j = 0
+        offa = offb = z3.IntVal(0)
+        cs = []
+        guard = 0
+        while i < len(na) and j < len(nb):
+            guard += 1
+            if guard > 4000:
+                raise BoundExceeded('run alignment')
+            x, y = na[i], nb[j]
+            lx = zint(x.length) if isinstance(x, Run) else z3.IntVal(1)
+            ly = zint(y.length) if isinstance(y, Run) else z3.IntVal(1)
+            rx, ry = z3.simplify(lx - offa), z3.simplify(ly - offb)
+            if self.truth(mk_bool(rx == ry)):
+                step, adv_a, adv_b = rx, True, True
+            elif self.truth(mk_bool(rx < ry)):
+                step, adv_a, adv_b = rx, True, False
+            else:
+                step, adv_a, adv_b = ry, False, True
+            if isinstance(x, Run) and isinstance(y, Run):
+                if self.truth(mk_bool(step > 0)):
+                    if x.rid != y.rid:
+                        return False
+                    if not self.truth(mk_bool(z3.simplify(zint(x.off) + offa) == z3.simplify(zint(y.off) + offb))):
+                        return False
+            elif isinstance(x, Run) or isinstance(y, Run):
+                if self.truth(mk_bool(step > 0)):
+                    raise Unsupported('comparison of an opaque run with concrete/symbolic bytes')
+            else:
+                cs.append(atom_z(x) == atom_z(y))
+            if adv_a:
+                i += 1
+                offa = z3.IntVal(0)
+            else:
+                offa = z3.simplify(offa + step)
+            if adv_b:
+                j += 1
+                offb = z3.IntVal(0)
+            else:
+                offb = z3.simplify(offb + step)
+        return mk_bool(z3.And(cs)) if cs else True
 
     def norm_atoms(self, atoms):
         out = []
@@ -950,6 +971,11 @@ class VM:
             return NOOP
         if fn is NOOP or isinstance(fn, NoOp):
             return NOOP
+        if isinstance(fn, (types.WrapperDescriptorType, types.MethodWrapperType)) and fn.__name__ == '__init__' and \
+                issubclass(getattr(fn, '__objclass__', type(getattr(fn, '__self__', None))), BaseException):
+            # exception messages built from symbolic values are opaque text
+            args = [a if not (is_sym(a) or isinstance(a, SymText)) else '<sym>' for a in args]
+            return fn(*args, **kwargs)
         if fn in TEXT_ONLY and (any(isinstance(a, SymText) for a in args) or deep_sym(args)):
             return SymText(list(args))
         if not deep_sym(args) and not deep_sym(kwargs):
